@@ -139,6 +139,11 @@ func goSource(pre prelude, e string) string {
 // className coarsens a type to the class used in failure keys: the untyped
 // kinds, intN, uintN, floatN, complexN, string, bool.
 func className(t types.Type) string {
+	if n, isNamed := t.(*types.Named); isNamed {
+		if _, basic := n.Underlying().(*types.Basic); basic {
+			return className(n.Underlying()) // a defined type over a basic type
+		}
+	}
 	b, ok := t.(*types.Basic)
 	if !ok {
 		return strings.ReplaceAll(t.String(), " ", "-")
@@ -362,8 +367,9 @@ func goJudge(pre prelude, e string) (*goVerdict, error) {
 // goValue converts the constant value val of basic type name to the Go value
 // Scriggo's print is expected to receive, and to an exact literal.
 func goValue(val constant.Value, name string) (any, string) {
-	f64 := func(v constant.Value) float64 { f, _ := constant.Float64Val(v); return f }
-	f32 := func(v constant.Value) float32 { f, _ := constant.Float32Val(v); return f }
+	// + 0: a value that underflows to -0 is the constant 0 (constant.MakeFloat64 does the same)
+	f64 := func(v constant.Value) float64 { f, _ := constant.Float64Val(v); return f + 0 }
+	f32 := func(v constant.Value) float32 { f, _ := constant.Float32Val(v); return f + 0 }
 	i64 := func() int64 { n, _ := constant.Int64Val(constant.ToInt(val)); return n }
 	u64 := func() uint64 { n, _ := constant.Uint64Val(constant.ToInt(val)); return n }
 	hex64 := func(f float64) string { return exactDecimal(new(big.Float).SetFloat64(f)) }
@@ -743,6 +749,9 @@ func fitsMantissa512(val constant.Value) bool {
 // rounded512IsInt reports whether the non-integer floating-point constant val
 // becomes an integer when rounded to a mantissa of 512 bits.
 func rounded512IsInt(val constant.Value) bool {
+	if val.Kind() == constant.Complex && constant.Sign(constant.Imag(val)) == 0 {
+		val = constant.Real(val)
+	}
 	if val.Kind() != constant.Float || constant.ToInt(val).Kind() == constant.Int {
 		return false
 	}
@@ -1019,13 +1028,15 @@ func main() {
 	kit.Main(&kit.Check{
 		ID:    "C02",
 		Level: "model_checking",
-		Rule:  fmt.Sprintf("every constant expression of the listed shapes over %d literals (0, ±1, 2^k-1/2^k/2^k+1 for k in 7,8,15,16,31,32,63,64, 2^100, 511, 512, 2^511, floats on and off the float64 fast path, beyond float32/float64, rune, strings, bools, imaginary), %d binary and %d unary operators and conversions to the %d basic types: leaf, unary, binary (untyped, T op T, T op untyped, untyped op T), shifts with independently typed operands, unary-of-binary, binary-of-unary, both depth-2 shapes with the operators + - * / %% over 9 operands around the int64 fast path (MaxInt64, -MaxInt64, MaxInt64-1, 1, -1, 2, 0, MaxInt32, 2^62), blocks of named constants (const a = L; const b = one of 12 operations on a; const c = one of 18 operations on a and b, over the literal set plus shift and sum expressions; a and b are re-read after c), and both depth-2 binary shapes over a 7 (quick) / 16 (thorough) literal subset, thorough also with all three leaves converted to each basic type; in the quick tier the typed binary and shift spaces draw their literals from a 20-literal core subset and the unary-of-binary / binary-of-unary spaces use the unary operator - only. Each index is a distinct expression text. A case is non-trivial when every operand of the outermost operator is itself a valid constant expression for go/types, so the verdict depends on the operator and not on a broken leaf", len(literals), len(binOps), len(unOps), len(basicTypes)),
+		Rule:  fmt.Sprintf("every constant expression of the listed shapes over %d literals (0, ±1, 2^k-1/2^k/2^k+1 for k in 7,8,15,16,31,32,63,64, 2^100, 511, 512, 2^511, floats on and off the float64 fast path, beyond float32/float64, rune, strings, bools, imaginary), %d binary and %d unary operators and conversions to the %d basic types: leaf, unary, binary (untyped, T op T, T op untyped, untyped op T), shifts with independently typed operands, unary-of-binary, binary-of-unary, both depth-2 shapes with the operators + - * / %% over 9 operands around the int64 fast path (MaxInt64, -MaxInt64, MaxInt64-1, 1, -1, 2, 0, MaxInt32, 2^62), blocks of named constants (const a = L; const b = one of 12 operations on a; const c = one of 18 operations on a and b, over the literal set plus shift and sum expressions; a and b are re-read after c), typed integer operands at the edges of their type (11 integer types and 5 defined types x 8 operands: both ends of the range, their neighbours, -1, 0, 1, 2 x 11 operators, as T(a) op T(b), T(a) op b and through a typed named constant), 33 further leaves (hexadecimal floats with short mantissas inside and outside float64, integers written in float form from 2^63 up, decimals within 2^-53 of an integer, values that round differently to float32 in one and in two steps, -0.0, constant calls of real, imag and complex) as leaves, under every conversion and unary operator, with 12 partners under every binary operator and pairwise under 6 operators, typed constant declarations (const a T = E for 15 numeric types x 49 values, then 10 operations on a), constant groups (second spec implicit, with its own value, with iota, with its own type), the constants of a native package declared with native.UntypedNumericConst in 29 spellings and typed, alone, under 11 operators with 14 partners, and used again after a first use in 9 forms, exponent spellings in a package each, implicit conversions observed at run time (124 constants in every internal representation x 28 sites: declaration, assignment, argument, variadic argument, return, slice, array, struct and map elements, map key, channel send, operations and comparisons with a variable, switch case, array, slice and string index, slice bound, shift counts, make and array length, division of a float or int variable x the 15 numeric types), and both depth-2 binary shapes over a 7 (quick) / 16 (thorough) literal subset, thorough also with all three leaves converted to each basic type; in the quick tier the typed binary and shift spaces draw their literals from a 20-literal core subset and the unary-of-binary / binary-of-unary spaces use the unary operator - only. Each index is a distinct expression text. A case is non-trivial when every operand of the outermost operator is itself a valid constant expression for go/types, so the verdict depends on the operator and not on a broken leaf", len(literals), len(binOps), len(unOps), len(basicTypes)),
 		Assumptions: []string{
 			"reference = go/types + go/constant of the toolchain that builds the check (GoVersion go1.25, 64-bit int)",
 			"values are compared after conversion to each basic type (floats after rounding to the type) and, for integers, dyadic rationals, strings and booleans, exactly against a literal; non-dyadic untyped float values are compared only through float32/float64/complex rounding",
 			"expressions deeper than 2 operators are not explored",
 			"two documented quirks of the reference are skipped, not judged: go/constant's MinInt64 / -1 (int64 fast path wraps; gc prints the same wrong value) and go/types accepting a typed constant of non-integer type as shift count (go.dev/issue/47410)",
-			"a compound expression whose operand already fails on its own is reported under the operand's failure key",
+			"a compound expression whose operand (a literal too) already fails on its own is reported under the operand's failure key; an implicit conversion site whose constant already fails under explicit conversion is reported under that key",
+			"printed floating-point values are compared with their sign: a negative zero where Go has +0 is a failure (Go constants have no -0)",
+			"the array-length site is not built for lengths of 4096 and more: Build allocates the zero value of the array and a huge valid length exhausts the memory of the host",
 		},
 		Spaces: spaces,
 		// safety net on an overloaded machine: ~6 min on 16 idle cores
